@@ -34,6 +34,12 @@ pub const BINARY: &[Instruction] = &[
     Instruction::MakeExclusiveRange,
 ];
 
+use garnish_lang_traits::GarnishDataType as GT;
+pub const CAST_TARGETS: &[GT] = &[
+    GT::Unit, GT::Number, GT::Type, GT::Char, GT::CharList, GT::Byte, GT::ByteList, GT::Symbol, GT::SymbolList, GT::Pair, GT::Range, GT::Concatenation, GT::Slice, GT::Partial, GT::List, GT::Expression, GT::External, GT::True, GT::False,
+    GT::Custom,
+];
+
 pub const UNARY: &[Instruction] = &[
     Instruction::Opposite,
     Instruction::AbsoluteValue,
@@ -84,21 +90,35 @@ pub fn defined(ins: Instruction, l: &str, r: &str) -> Option<bool> {
         }
         EmptyApply => Some(is(l, &["Expression", "External", "Partial"])),
         ApplyType => {
-            // judged only where no reading defines a result: casting to a composite / callable type from a different, non-unit type
-            if is(r, &["Pair", "Range", "Slice", "Partial", "Concatenation", "Expression", "External"]) && l != r && l != "Unit" {
-                Some(false)
-            } else {
-                None
+            // `r` is the target type: the type a Type-valued right operand names, else the right operand's own type
+            if l == r || is(r, &["CharList", "ByteList", "Symbol", "True", "False"]) {
+                return Some(true);
             }
+            if l == "Unit" {
+                // unit casts to unit without the host being asked; whether that is a "defined result" is not settled: not judged
+                return None;
+            }
+            let primitive = [("CharList", "Number"), ("Number", "Char"), ("Number", "Byte"), ("Char", "Number"), ("Char", "Byte"), ("Byte", "Number"), ("Byte", "Char"), ("CharList", "Char")];
+            if primitive.contains(&(l, r)) {
+                return Some(true);
+            }
+            if r == "List" && is(l, &["SymbolList", "Range", "CharList", "ByteList", "Concatenation", "Slice"]) {
+                return Some(true);
+            }
+            Some(false)
         }
         _ => None,
     }
 }
 
-fn run_on(imp: Impl, state: &HostState, ins: Instruction, a: &V, b: Option<&V>) -> Option<(OpOutcome, Vec<Call>)> {
+fn run_on(imp: Impl, copy: bool, state: &HostState, ins: Instruction, a: &V, b: Option<&V>) -> Option<(OpOutcome, Vec<Call>)> {
     match imp {
         Impl::Simple => {
             let mut d = new_simple_hosted(state.clone());
+            if copy {
+                // the build-once, copy-per-execution pattern: the copy must behave like the object the callbacks were installed on
+                d = d.clone_with_aux_without_data().ok()?;
+            }
             let o = call(&mut d, ins, a, b).ok()?;
             Some((o, d.host().log.clone()))
         }
@@ -113,9 +133,13 @@ fn run_on(imp: Impl, state: &HostState, ins: Instruction, a: &V, b: Option<&V>) 
 impl C08Check {
     fn judge(&self, ins: Instruction, a: &V, b: Option<&V>, ctx: &mut CaseCtx) {
         let (lt, rt) = (a.type_name(), b.map(|b| b.type_name()).unwrap_or("Unit"));
-        // a cast names its target by a Type value or by a value of that type: use the value's own type
+        // a cast names its target by a Type value or by a value of that type
+        let target: String = match (ins, b) {
+            (Instruction::ApplyType, Some(V::Type(t))) => format!("{:?}", t),
+            _ => rt.to_string(),
+        };
         ctx.render(|| format!("{:?} on {} {}", ins, a, b.map(|b| b.to_string()).unwrap_or_default()));
-        let def = defined(ins, lt, rt);
+        let def = defined(ins, lt, &target);
         match def {
             Some(true) => {
                 ctx.class("defined-combination");
@@ -130,18 +154,18 @@ impl C08Check {
         ctx.class("undefined-combination");
         ctx.nontrivial(fnv(format!("{:?}|{}|{:?}", ins, a, b.map(|b| b.to_string())).as_bytes()));
         let modes: [(&str, HostState); 2] = [("declining", HostState::default()), ("accepting", HostState { defer_answer: Some(4242), ..HostState::default() })];
-        for imp in Impl::BOTH {
+        for (imp, copy) in [(Impl::Simple, false), (Impl::Simple, true), (Impl::Basic, false)] {
             for (mode, state) in &modes {
                 ctx.sub_evals += 1;
-                let (out, log) = match run_on(imp, state, ins, a, b) {
+                let (out, log) = match run_on(imp, copy, state, ins, a, b) {
                     Some(x) => x,
                     None => {
                         ctx.class("operands-not-buildable");
                         return;
                     }
                 };
-                let key = format!("{:?}:{}:{}", ins, lt, if b.is_some() { rt } else { "-" });
-                let what = format!("{:?} on ({}, {}) on {} with a {} host", ins, a, b.map(|b| b.to_string()).unwrap_or("-".into()), imp.name(), mode);
+                let key = format!("{:?}:{}:{}", ins, lt, if b.is_some() { if target != rt { format!("Type({})", target) } else { rt.to_string() } } else { "-".to_string() });
+                let what = format!("{:?} on ({}, {}) on {} with a {} host", ins, a, b.map(|b| b.to_string()).unwrap_or("-".into()), if copy { "a clone_with_aux_without_data copy of SimpleGarnishData" } else { imp.name() }, mode);
                 if let Some(loc) = &out.panicked {
                     ctx.fail(format!("panic@{}", loc), what);
                     continue;
@@ -159,7 +183,7 @@ impl C08Check {
                 } else if let Call::Defer(op, l_ty, l_addr, r_ty, r_addr) = defers[0] {
                     let op_ok = *op == format!("{:?}", ins);
                     let left_ok = l_ty == lt && *l_addr == out.left_addr;
-                    let right_ok = if b.is_some() { r_ty == rt && *r_addr == out.right_addr } else { true };
+                    let right_ok = if b.is_some() { (r_ty == rt || *r_ty == target) && *r_addr == out.right_addr } else { true };
                     if !op_ok {
                         ctx.fail(format!("host-told-wrong-operation:{}", key), format!("{}: callback received operation {}", what, op));
                     }
@@ -194,15 +218,16 @@ impl Check for C08Check {
     fn rule(&self) -> String {
         format!(
             "The finite matrix, exhaustively: {} binary instructions (arithmetic, bitwise, access, apply, cast, the four range constructors) x every ordered pair of 32 representative values covering all 20 value types (empty, singleton, typical, nested), and {} unary instructions (arithmetic prefixes, internal accessors, empty apply) x the 32 values, \
-             each on SimpleGarnishData and BasicGarnishData with a declining and an accepting deferred-operation callback (the callback absent is the declining case of SimpleGarnishData's default handler). Instructions are called directly with operands placed through the data API above two sentinel registers. \
+             each on SimpleGarnishData, on a copy of it made with clone_with_aux_without_data after the callback was installed, and on BasicGarnishData, with a declining and an accepting deferred-operation callback (the callback absent is the declining case of SimpleGarnishData's default handler). Instructions are called directly with operands placed through the data API above two sentinel registers. \
              For every combination outside the table of defined combinations (DESIGN.md Appendix C): the call returns Ok, the callback is invoked exactly once with this instruction and both operands (type and address) in source order, declining leaves exactly one new register holding unit, accepting leaves exactly the callback's value, sentinels untouched. \
+             Phase cast-targets: every one of the 32 values cast to every one of the 20 types, the target given as a type value. \
              Non-trivial = a combination outside the defined table; distinct = distinct (instruction, operand values).",
             BINARY.len(),
             UNARY.len()
         )
     }
     fn assumptions(&self) -> Vec<String> {
-        vec!["DEFINED(op) as in DESIGN.md Appendix C; casts are judged only towards composite/callable target types".into()]
+        vec!["DEFINED(op) as in DESIGN.md Appendix C; a cast is defined when source and target type agree, towards text, bytes, symbol and the booleans, between number / character / byte / one-character text, and from the sequence kinds to a list; a cast of unit is not judged".into()]
     }
     fn phases(&self, _tier: Tier) -> Vec<Phase> {
         let n = truth_values().len() as u64;
@@ -210,6 +235,7 @@ impl Check for C08Check {
             Phase::exhaustive("binary-matrix", BINARY.len() as u64 * n * n).with_chunk(512),
             Phase::exhaustive("unary-matrix", UNARY.len() as u64 * n).with_chunk(16),
             Phase::exhaustive("identifier-against-every-input-type", n).with_chunk(4),
+            Phase::exhaustive("cast-targets", n * CAST_TARGETS.len() as u64).with_chunk(16),
         ]
     }
     fn run(&self, _tier: Tier, phase: usize, input: &Input, ctx: &mut CaseCtx) {
@@ -224,6 +250,12 @@ impl Check for C08Check {
             (1, Input::Index(i)) => {
                 let ins = UNARY[(*i / n) as usize];
                 self.judge(ins, &vals[(*i % n) as usize], None, ctx);
+            }
+            (3, Input::Index(i)) => {
+                // every value cast to every type, the target given as a type value
+                let t = CAST_TARGETS[(*i % CAST_TARGETS.len() as u64) as usize];
+                ctx.class("cast-to-type-value");
+                self.judge(Instruction::ApplyType, &vals[(*i / CAST_TARGETS.len() as u64) as usize], Some(&V::Type(t)), ctx);
             }
             (2, Input::Index(i)) => {
                 // an identifier looked up in an input value of a type that cannot hold names: no error, host asked once, unit if it declines
